@@ -164,6 +164,28 @@ Definition c01_wild_first_statement : Prop :=
      wf_b h = true -> above_first_b cfg h = true ->
      c01_statement cfg LNone h /\ lib_mono_b (cfg_nofail cfg) (fs_init LNone) h = true).
 
+(* The same with blocks AT the first streamable block allowed (no block UNDER it): then the configured LIB must
+   be weakly coherent with the history -- its id is the id of a block of the history, or the blocks whose
+   parent id is r0's id are higher than r0's number.  In discovery mode nothing else is needed: for the hub's
+   configuration C01 holds for every well-formed history that has no block under the first streamable block. *)
+Definition not_under_first_b (cfg : config) (h : list block) : bool := forallb (fun b => c_first cfg <=? bnum b) h.
+
+Definition lib_weak_coh_b (r0 : ref) (h : list block) : bool :=
+  existsb (fun b => bid b =? ri r0) h ||
+  forallb (fun b => if bparent b =? ri r0 then rn r0 <? bnum b else true) h.
+
+Definition c01_wild_first_le_statement : Prop :=
+  (forall cfg r0 m h,
+     rooted_mode r0 m ->
+     f_new (c_filter cfg) = true -> f_undo (c_filter cfg) = true ->
+     wf_b h = true -> ri r0 <> 0 -> not_under_first_b cfg h = true -> lib_weak_coh_b r0 h = true ->
+     c01_statement cfg m h /\ lib_mono_b (cfg_nofail cfg) (fs_init m) h = true) /\
+  (forall cfg h,
+     c_hold cfg = true -> c_incl cfg = false ->
+     f_new (c_filter cfg) = true -> f_undo (c_filter cfg) = true ->
+     wf_b h = true -> not_under_first_b cfg h = true ->
+     c01_statement cfg LNone h /\ lib_mono_b (cfg_nofail cfg) (fs_init LNone) h = true).
+
 (* the class of c01_moving_lib_roots_partial lies inside the class of c01_wild_mono_statement *)
 Definition c01_wild_mono_subsumes : Prop :=
   forall cfg r0 m h,
